@@ -20,6 +20,10 @@ CELLS = {
     "rotated-cubic": [(6 * G, 0, 8 * G), (0, 10 * G, 0), (-8 * G, 0, 6 * G)],
     "permuted-axes": [(0, 10 * G, 0), (0, 0, 11 * G), (12 * G, 0, 0)],
     "negative-diagonal": [(-10 * G, 0, 0), (0, -11 * G, 0), (0, 0, 12 * G)],
+    # left-handed bases (negative determinant): two vectors listed in swapped order, one vector mirrored
+    "left-handed-swapped": [(10 * G, 0, 0), (1 * G, 3 * G, 8 * G), (2 * G, 9 * G, 0)],
+    "left-handed-mirrored": [(-9 * G, 0, 0), (0, 8 * G, 0), (0, 0, 7 * G)],
+    "left-handed-axes-exchanged": [(9 * G, 0, 0), (0, 0, 8 * G), (0, 7 * G, 0)],
 }
 
 
@@ -81,7 +85,19 @@ def main(tier, seed, replay=None):
         cases = []
         if replay:
             r = json.load(open(replay))
-            if "input" in r:
+            if "input" in r and r["input"].get("scale"):
+                import numpy as np
+                st, sc, f = r["input"]["init"], r["input"]["scale"], tuple(r["input"]["ops"][0][1])
+                ref = np.array(AIO.to_atoms(st).replicate(f).positions)
+                B = AIO.to_atoms(st)
+                B.positions = np.array(B.positions) * sc
+                B.cell = np.array(B.cell) * sc
+                got = np.array(B.replicate(f).positions) / sc
+                if got.shape != ref.shape or not np.allclose(got, ref, rtol=1e-9, atol=1e-9):
+                    found_input = True
+                    run.violation("failing-input", {"input": r["input"], "observed": ["atoms of the replica of the rescaled structure are not at the lattice offsets"],
+                                                    "expected": "the replica of the rescaled structure is the rescaled replica", "case_kind": "replay"})
+            elif "input" in r:
                 cases.append((r["input"]["init"], [tuple(o) for o in r["input"]["ops"]], "replay"))
         for name, c in corpus("C12"):
             cases.append((c["init"], [tuple(o) for o in c["ops"]], "corpus:" + name))
@@ -126,6 +142,30 @@ def main(tier, seed, replay=None):
                 run.nontrivial((init, [list(o) for o in ops]))
             lits.append(AIO.case_literal(st0, ops, states, I))
             run.sample({"cell": kind, "n_atoms": len(st0["pos"]), "factors": list(f), "impropers": st0["impropers"]["tup"]})
+        # the same crystal expressed in other length units (nanometres, metres): replication must not depend on the unit
+        if not replay:
+            import numpy as np
+            for cname, cell in list(CELLS.items())[:4]:
+                st = tagged(run.rng, 3, "u", coeffs=True, cell=cell, rich=True, max_terms=2)
+                A = AIO.to_atoms(st)
+                ref = np.array(A.replicate((2, 1, 2)).positions)
+                for unit, sc in (("nanometre", 0.1), ("metre", 1e-10)):
+                    B = AIO.to_atoms(st)
+                    B.positions = np.array(B.positions) * sc
+                    B.cell = np.array(B.cell) * sc
+                    try:
+                        got = np.array(B.replicate((2, 1, 2)).positions) / sc
+                        ok = got.shape == ref.shape and np.allclose(got, ref, rtol=1e-9, atol=1e-9)
+                        msg = "atoms of the replica are not at the lattice offsets"
+                    except Exception as e:      # noqa
+                        ok, msg = False, "raised %s: %s" % (type(e).__name__, e)
+                    run.cov["evaluations"] += 1
+                    run.count("unit=" + unit)
+                    if not ok:
+                        found_input = True
+                        run.violation("failing-input", {"input": {"init": st, "ops": [["replicate", [2, 1, 2]]], "length_unit": unit, "scale": sc},
+                                                        "observed": ["with all lengths expressed in %ss: %s" % (unit, msg)],
+                                                        "expected": "the replica of the rescaled structure is the rescaled replica", "case_kind": cname})
         failing = run.correspond("c12", AIO.ATOMS_HEADER, lits, shard=40)
         for f in failing:
             if f[0] == "case":
